@@ -15,7 +15,7 @@ THEOREMS = [
     "C01_paths_agree", "C01_oid_is_git", "C01_git_reads", "C01_reads_git",
     "C01_reads_all_git_accepts", "C01_reader_lenient_refuted",
     "C01_short_write", "C01_overflow_truncates", "C01_chunking_independent", "C01_read_header_spec",
-    "C01_memobj_fresh", "C01_memobj_stale_refuted",
+    "C01_format_current", "C01_format_fields", "C01_memobj_fresh", "C01_memobj_stale_refuted",
     "C01_sha_extend", "C01_digest_shape",
 ]
 MODEL_FILES = ["ObjFile.v"]
@@ -25,7 +25,9 @@ MODELLED = (
     "(WriteHeader/writeHeader incl. maxHeaderLen from Gen, Write with the pending cut, Hash), objfile.Reader "
     "(Header/readUntil with the byte budget, strconv.ParseInt(…,10,64), Read-to-EOF, Hash), the write paths "
     "filesystem SetEncodedObject / RawObjectWriter / LazyWriter / worktree Add and memory SetEncodedObject reduced to "
-    "(format, type, declared size, chunks); Spec/SHA.v executable SHA-1 and SHA-256; Spec/LooseGit.v git's "
+    "(format, type, declared size, chunks); the hasher selection of both storages (NewStorageWithOptions incl. the "
+    "config-file override, Storage.SetObjectFormat, ConfigStorage.Config, memory NewStorage/SetObjectFormat) as the state "
+    "(config, DotGit format, ObjectHasher format, reader format) each write path reads; Spec/SHA.v executable SHA-1 and SHA-256; Spec/LooseGit.v git's "
     "format_object_header / unpack_loose_header / parse_loose_header. Not modelled (exercised only): zlib, the "
     "streaming hash implementations of Go's crypto packages, billy filesystems, temp-file/rename plumbing, caches")
 TRUSTED = [
@@ -39,13 +41,30 @@ ASSUMPTIONS = [
     "a hash.Hash behaves as H(concatenation of the writes) (Go's crypto/sha1, crypto/sha256, sha1cd streaming implementations; exercised, not modelled)",
     "git's loose-object header grammar is as Spec/LooseGit.git_parse says (validated against the git binary on each run)",
 ]
-RULE = ("case = (entry point, object format, type, declared size, content split in chunks) or a git-written / hand-made loose "
+RULE = ("case = (entry point, object format or storage history [constructor option, pre-existing config, SetObjectFormat calls, or a real "
+        "in-process clone of a git-made SHA-1/SHA-256 repository], type, declared size, content split in chunks) or a git-written / hand-made loose "
         "file; contents from buckets {empty, NUL-rich, header-like prefix, SHA block boundaries, size grid, real object "
         "shapes, random, large}; non-trivial = non-empty content or a size/header anomaly; distinct by content")
 
 GIT = "/usr/bin/git"
 GIT_TYPES = ["blob", "tree", "commit", "tag"]
-FILE_ENTRIES = ("raw", "lazy", "set", "set_late", "set_stale", "add")
+FILE_ENTRIES = ("raw", "lazy", "set", "set_late", "set_stale", "add", "clone_raw", "clone_lazy", "clone_set", "clone_add")
+# storage histories: (constructor option, objectformat of a pre-existing config file or "none", SetObjectFormat calls).
+# ("", "none", ["sha256"]) is what PlainClone of a SHA-256 remote does to a freshly initialised repository.
+HISTORIES = [("", "none", ["sha256"]), ("", "none", ["sha256"]), ("", "none", ["sha1"]), ("sha1", "none", ["sha256"]),
+             ("sha256", "none", ["sha1"]), ("sha256", "", []), ("", "sha256", []), ("sha256", "sha1", []),
+             ("", "none", ["sha256", "sha1"]), ("", "none", ["sha256", "sha256"]), ("", "sha256", ["sha1"]),
+             ("", "none", ["", "sha256"]), ("sha1", "sha1", ["sha256"]), ("", "none", []), ("sha256", "none", ["sha256"])]
+HIST_ENTRIES = ("raw", "lazy", "set", "set_late", "add", "mem", "mem_late")
+
+
+def repo_format(entry, ctor, cfgfile, switch):
+    """the format the repository is in (what git hashes with): last accepted SetObjectFormat, else the config file, else the option"""
+    cur = ctor if (cfgfile == "none" or entry.startswith("mem")) else cfgfile
+    for s in switch:
+        if s in ("sha1", "sha256"):
+            cur = s
+    return "sha256" if cur == "sha256" else "sha1"
 MODEL_MAX = 2048
 GITENV = dict(os.environ, GIT_CONFIG_NOSYSTEM="1", GIT_CONFIG_GLOBAL="/dev/null", HOME="/nonexistent",
               GIT_AUTHOR_NAME="v", GIT_AUTHOR_EMAIL="v@v", GIT_COMMITTER_NAME="v", GIT_COMMITTER_EMAIL="v@v")
@@ -165,26 +184,53 @@ class Write(Suite):
             elif rel == "huge":
                 size = rng.choice([(1 << 62), (1 << 63) - 1, 10**18, 10**17 - 1])
             chunks = split(rng, c)
+            hist = None
+            if entry in HIST_ENTRIES and rng.random() < 0.4:
+                hist = rng.choice(HISTORIES)
+                fmt = repo_format(entry, *hist)
             if entry == "set_stale":
                 chunks = chunks or [b""]
                 if ty not in GIT_TYPES:
                     ty = "blob"
-            cases.append({"bucket": "%s/%s/%s" % (entry, cb, rel), "kind": "write", "entry": entry, "fmt": fmt, "type": ty,
-                          "size": str(size), "rel": rel, "chunks": [x.hex() for x in chunks]})
+            case = {"bucket": "%s/%s/%s" % (entry, cb, rel), "kind": "write", "entry": entry, "fmt": fmt, "type": ty,
+                    "size": str(size), "rel": rel, "chunks": [x.hex() for x in chunks]}
+            if hist is not None:
+                case["bucket"] = "%s/switch/%s" % (entry, rel)
+                case.update({"ctor": hist[0], "cfgfile": "none" if entry.startswith("mem") else hist[1], "switch": list(hist[2])})
+            cases.append(case)
+        # every entry point after the run-time switch of a clone, and after a real in-process clone of a git-made repository
+        for k, entry in enumerate(["raw", "lazy", "set", "add", "mem"]):
+            c = content(rng, "text")
+            cases.append({"bucket": "%s/switch/eq" % entry, "kind": "write", "entry": entry, "fmt": "sha256", "type": "blob",
+                          "size": str(len(c)), "rel": "eq", "chunks": [c.hex()], "ctor": "", "cfgfile": "none", "switch": ["sha256"]})
+        nclone = 4 if tier == "quick" else 24
+        for k in range(nclone):
+            entry = ["clone_set", "clone_add", "clone_raw", "clone_lazy"][k % 4]
+            fmt = "sha256" if k % 8 < 6 else "sha1"
+            c = content(rng, pick_weighted(rng, CONTENT_BUCKETS))
+            cases.append({"bucket": "%s/%s" % (entry, fmt), "kind": "write", "entry": entry, "fmt": fmt, "type": "blob" if entry == "clone_add" else rng.choice(GIT_TYPES),
+                          "size": str(len(c)), "rel": "eq", "chunks": [x.hex() for x in split(rng, c)] or [""]})
         return cases
 
     def model_expr(self, c):
         total = sum(len(x) // 2 for x in c["chunks"])
         if total > MODEL_MAX:
             return None
-        return 'c01_run_write "%s" "%s" "%s" %s %s' % (c["entry"], c["fmt"], c["type"], coq_Z(int(c["size"])),
-                                                      coq_list(['"%s"' % x for x in c["chunks"]]))
+        chunks = coq_list(['"%s"' % x for x in c["chunks"]])
+        if c["entry"].startswith("clone_"):
+            # Init with defaults, then the negotiation switches the storage when the remote is SHA-256
+            sw = ['"sha256"'] if c["fmt"] == "sha256" else []
+            return 'c01_run_write_st "%s" "" "none" %s "%s" %s %s' % (c["entry"][6:], coq_list(sw), c["type"], coq_Z(int(c["size"])), chunks)
+        if "ctor" in c:
+            return 'c01_run_write_st "%s" "%s" "%s" %s "%s" %s %s' % (c["entry"], c["ctor"], c.get("cfgfile", "none"),
+                                                                       coq_list(['"%s"' % x for x in c["switch"]]), c["type"], coq_Z(int(c["size"])), chunks)
+        return 'c01_run_write "%s" "%s" "%s" %s %s' % (c["entry"], c["fmt"], c["type"], coq_Z(int(c["size"])), chunks)
 
     def nontrivial(self, c):
         return any(c["chunks"]) or c.get("rel", "eq") != "eq"
 
     def key(self, c):
-        return "|".join([c["entry"], c["fmt"], c["type"], str(c["size"])] + c["chunks"])
+        return "|".join([c["entry"], c["fmt"], c["type"], str(c["size"]), c.get("ctor", "-"), c.get("cfgfile", "-"), ",".join(c.get("switch", []))] + c["chunks"])
 
     def show(self, c):
         d = dict(c)
@@ -298,7 +344,7 @@ class Write(Suite):
                 bad_size = int(case["size"]) < 0
             except ValueError:
                 bad_size = False
-            if case["type"] in ("invalid", "any") or bad_size:
+            if bad_size:
                 return "setencodedobject-header-error-panic"
         return None
 
